@@ -487,6 +487,13 @@ func (ff *FuncFacts) SuccessReturns() []*ssa.Return {
 // and rundefers when a deferred closure writes it.
 func unspill(v ssa.Value) ssa.Value {
 	for i := 0; i < 8; i++ {
+		if phi, isPhi := v.(*ssa.Phi); isPhi {
+			if a := phiAlias(phi); a != nil {
+				v = a
+				continue
+			}
+			return v
+		}
 		u, ok := v.(*ssa.UnOp)
 		if !ok || u.Op != token.MUL {
 			return v
@@ -1108,4 +1115,178 @@ func (p *Prog) sameCond(a, b ssa.Value, d int) bool {
 		}
 	}
 	return false
+}
+
+// ---- disjunctive expansion of merged flags ---------------------------------
+
+// Alternatives expands facts that test a bool phi (x := a || b; if x ...) or
+// the nil-ness of a merged value into one fact set per incoming edge that is
+// consistent with the fact: the conditions of reaching that edge, plus the
+// edge's own operand when it is not a constant.  Every execution satisfies at
+// least one alternative.
+func (ff *FuncFacts) Alternatives(fs []Fact, depth int) [][]Fact {
+	if depth > 3 {
+		return [][]Fact{fs}
+	}
+	for i, f := range fs {
+		phi, ok := f.Cond.(*ssa.Phi)
+		if !ok || !isBoolType(phi.Type()) {
+			continue
+		}
+		rest := append(append([]Fact{}, fs[:i]...), fs[i+1:]...)
+		var out [][]Fact
+		for k, e := range phi.Edges {
+			pred := phi.Block().Preds[k]
+			alt := append([]Fact{}, rest...)
+			if c, isC := e.(*ssa.Const); isC {
+				if c.Value == nil || c.Value.Kind() != constant.Bool || constant.BoolVal(c.Value) != f.Pol {
+					continue
+				}
+			} else {
+				cnd, pl := stripNot(e, f.Pol)
+				alt = append(alt, Fact{cnd, pl})
+			}
+			alt = append(alt, ff.NC(pred)...)
+			if ef, ok := edgeFact(pred, phi.Block()); ok {
+				alt = append(alt, ef)
+			}
+			out = append(out, ff.Alternatives(alt, depth+1)...)
+		}
+		if len(out) == 0 {
+			return [][]Fact{fs}
+		}
+		return out
+	}
+	return [][]Fact{fs}
+}
+
+func isBoolType(t types.Type) bool {
+	b, ok := t.Underlying().(*types.Basic)
+	return ok && b.Kind() == types.Bool
+}
+
+// ---- result phis of merged exits ---------------------------------------------
+
+var phiAliasCache = map[*ssa.Phi]ssa.Value{}
+var phiAliasBusy = map[*ssa.Phi]bool{}
+
+// phiAlias: when every use of phi sits under conditions (tests of sibling phis
+// of the same block: the merged error of an inlined helper, a merged ok flag)
+// that leave exactly one and the same incoming edge possible, the phi is that
+// edge's value wherever it is used.
+func phiAlias(phi *ssa.Phi) ssa.Value {
+	if activeProg == nil || phi.Block() == nil || phi.Parent() == nil {
+		return nil
+	}
+	if v, ok := phiAliasCache[phi]; ok {
+		return v
+	}
+	if phiAliasBusy[phi] {
+		return nil
+	}
+	phiAliasBusy[phi] = true
+	defer delete(phiAliasBusy, phi)
+	ff := activeProg.Facts(phi.Parent())
+	B := phi.Block()
+	refs := phi.Referrers()
+	res := -1
+	ok := refs != nil && len(*refs) > 0
+	nuse := 0
+	if ok {
+		for _, r := range *refs {
+			if _, isDbg := r.(*ssa.DebugRef); isDbg {
+				continue
+			}
+			if _, isPhi := r.(*ssa.Phi); isPhi {
+				ok = false
+				break
+			}
+			nuse++
+			allowed := map[int]bool{}
+			for i := range phi.Edges {
+				allowed[i] = true
+			}
+			for _, f := range ff.NC(r.Block()) {
+				sib, want, kind := siblingTest(f)
+				if sib == nil || sib.Block() != B || sib == phi {
+					continue
+				}
+				for i := range sib.Edges {
+					if !allowed[i] {
+						continue
+					}
+					switch kind {
+					case "bool":
+						if c, isC := sib.Edges[i].(*ssa.Const); isC && c.Value != nil && c.Value.Kind() == constant.Bool && constant.BoolVal(c.Value) != want {
+							delete(allowed, i)
+						}
+					case "nil":
+						st := ff.edgeNilState(sib, i)
+						if st != 0 && (st == 1) != want {
+							delete(allowed, i)
+						}
+					}
+				}
+			}
+			if len(allowed) != 1 {
+				ok = false
+				break
+			}
+			for i := range allowed {
+				if res >= 0 && res != i {
+					ok = false
+				}
+				res = i
+			}
+			if !ok {
+				break
+			}
+		}
+	}
+	var out ssa.Value
+	if ok && nuse > 0 && res >= 0 {
+		out = phi.Edges[res]
+	}
+	phiAliasCache[phi] = out
+	return out
+}
+
+// siblingTest: fact f tests a phi directly: (phi, wanted bool value, "bool"),
+// or (phi, wanted nil-ness, "nil").
+func siblingTest(f Fact) (*ssa.Phi, bool, string) {
+	if phi, ok := f.Cond.(*ssa.Phi); ok {
+		return phi, f.Pol, "bool"
+	}
+	if x, isNil, ok := FactNilCmp(f); ok {
+		if phi, isPhi := x.(*ssa.Phi); isPhi {
+			return phi, isNil, "nil"
+		}
+	}
+	return nil, false, ""
+}
+
+// edgeNilState: 1 = the value arriving over edge i of phi is nil, 2 = it is
+// not nil, 0 = unknown.
+func (ff *FuncFacts) edgeNilState(phi *ssa.Phi, i int) int {
+	e := phi.Edges[i]
+	pred := phi.Block().Preds[i]
+	if isNilConst(e) {
+		return 1
+	}
+	if _, isMI := e.(*ssa.MakeInterface); isMI {
+		return 2
+	}
+	fs := append([]Fact{}, ff.NC(pred)...)
+	if ef, ok := edgeFact(pred, phi.Block()); ok {
+		fs = append(fs, ef)
+	}
+	for _, g := range fs {
+		if y, yNil, ok := FactNilCmp(g); ok && y == e {
+			if yNil {
+				return 1
+			}
+			return 2
+		}
+	}
+	return 0
 }
